@@ -11,11 +11,11 @@ from . import fmt
 SIMFS = "/simfs/"
 BASES = "ACGT"
 QUAL_FULL = "".join(chr(c) for c in range(33, 127))
-ID_RE = re.compile(r"rd\d{4}")
+ID_RE = re.compile(r"rd\d{5}")
 
 
 def rand_seq(rng, n, alphabet=BASES):
-    return "".join(rng.choice(alphabet) for _ in range(n))
+    return "".join(rng.choices(alphabet, k=n)) if n > 0 else ""
 
 
 def mutate(rng, s, k):
@@ -140,7 +140,14 @@ def plant(rng, insert, adapter, errs):
 # ----------------------------------------------------------------------------- records
 
 
-def gen_read(rng, adapters, maxlen=60, upper_only=False):
+_COMP = str.maketrans("ACGTNacgtn", "TGCANtgcan")
+
+
+def revcomp_seq(s):
+    return s.translate(_COMP)[::-1]
+
+
+def gen_read(rng, adapters, maxlen=60, upper_only=False, times=1, revcomp=False):
     r = rng.random()
     if r < 0.04:
         return ""
@@ -155,12 +162,14 @@ def gen_read(rng, adapters, maxlen=60, upper_only=False):
     if adapters and rng.random() < 0.65:
         ad = rng.choice(adapters)
         seq = plant(rng, seq, ad, rng.choice([0, 0, 0, 1, 1, 2]))
-        if rng.random() < 0.15:  # a second occurrence (matters with --times)
+        if rng.random() < (0.15 if times == 1 else 0.5):  # a second occurrence (matters with --times)
             seq = plant(rng, seq, rng.choice(adapters), 0)
     if rng.random() < 0.12:
         seq += "A" * rng.randint(3, 15)  # poly-A tail
     if rng.random() < 0.06:
         seq = "N" * rng.randint(1, 5) + seq + "N" * rng.randint(0, 5)
+    if revcomp and rng.random() < 0.45:
+        seq = revcomp_seq(seq)  # the adapters are found only after reverse-complementing
     return seq
 
 
@@ -174,14 +183,15 @@ def gen_qual(rng, n):
         alphabet = "FGHIJ"
     else:
         alphabet = "!\"#$%&"
-    return "".join(rng.choice(alphabet) for _ in range(n))
+    return "".join(rng.choices(alphabet, k=n)) if n > 0 else ""
 
 
-def gen_records(rng, n, paired, fastq, adapters1, adapters2, maxlen=60, r2_maxlen=None, upper_only=False):
+def gen_records(rng, n, paired, fastq, adapters1, adapters2, maxlen=60, r2_maxlen=None, upper_only=False,
+                times=1, revcomp=False):
     recs = []
     style = rng.choice(["none", "none", "casava", "text", "mixed"])
     for i in range(n):
-        rid = f"rd{i:04d}"
+        rid = f"rd{i:05d}"
         st = style if style != "mixed" else rng.choice(["none", "casava", "text"])
         if st == "casava":
             flag = rng.choice("NNNY")
@@ -192,13 +202,15 @@ def gen_records(rng, n, paired, fastq, adapters1, adapters2, maxlen=60, r2_maxle
             c1 = c2 = c
         else:
             c1 = c2 = ""
-        s1 = gen_read(rng, adapters1, maxlen, upper_only)
-        q1 = gen_qual(rng, len(s1)) if fastq else None
+        s1 = gen_read(rng, adapters1, maxlen, upper_only, times, revcomp and not paired)
         if paired:
-            s2 = gen_read(rng, adapters2, r2_maxlen or maxlen, upper_only)
+            s2 = gen_read(rng, adapters2, r2_maxlen or maxlen, upper_only, times)
+            if revcomp and rng.random() < 0.4:
+                s1, s2 = s2, s1  # paired --revcomp means: mates swapped
             q2 = gen_qual(rng, len(s2)) if fastq else None
         else:
             s2 = q2 = None
+        q1 = gen_qual(rng, len(s1)) if fastq else None
         recs.append([rid, c1, c2, s1, q1, s2, q2])
     return recs
 
@@ -333,6 +345,8 @@ def default_profile():
         p_decoy_adapter=0.0,  # an extra named adapter that is never planted (its file stays empty)
         force_info=False,
         revcomp_single_only=False,
+        p_big=0.01,
+        p_huge=0.004,
         upper_only=False,  # reads over ACGTN only
     )
 
@@ -395,6 +409,7 @@ def gen_case(rng, profile=None):
         opts.append(["-" + a["end"].upper(), a["spec"]])
     has_adapters = bool(ad1 or ad2)
     has_linked = any(a["kind"] == "linked" for a in ad1 + ad2)
+    times = 1
 
     if has_adapters:
         if rng.random() < 0.25:
@@ -407,7 +422,6 @@ def gen_case(rng, profile=None):
             opts.append(["--match-read-wildcards"])
         if rng.random() < 0.07:
             opts.append(["-N"])
-        times = 1
         if not pair_adapters and rng.random() < 0.3:
             times = rng.randint(*P["times"])
             if times > 1:
@@ -590,10 +604,18 @@ def gen_case(rng, profile=None):
     lo, hi = P["n_records"]
     r = rng.random()
     n = 0 if r < 0.03 else (rng.randint(1, 3) if r < 0.1 else rng.randint(lo, hi))
+    rb = rng.random()
+    big = 2 if rb < P["p_huge"] else (1 if rb < P["p_huge"] + P["p_big"] else 0)
+    if big:
+        # a few large inputs per batch (hundreds of KiB; rarely several MiB with chunks of
+        # 0.3-1 MiB), so that size-dependent paths (buffer re-use thresholds, pipe-sized
+        # messages, compressor block sizes) run at all
+        n = rng.randint(2500, 6000) if big == 1 else rng.randint(12000, 20000)
+        P = dict(P, maxlen=150)
     r2max = P["maxlen"]
     if paired and rng.random() < 0.3:
         r2max = rng.choice([8, 15, 120])  # very different R1/R2 lengths: chunk limits differ
-    records = gen_records(rng, n, paired, fastq, ad1, ad2, P["maxlen"], r2max, P["upper_only"])
+    records = gen_records(rng, n, paired, fastq, ad1, ad2, P["maxlen"], r2max, P["upper_only"], times, revcomp)
     inp = gen_input(rng, paired, fastq, P["in_containers"], p_interleaved_fasta=P["p_interleaved_fasta"])
     if inp["layout"] == "interleaved" or interleaved_out:
         outs.append(["--interleaved"])
@@ -619,6 +641,7 @@ def gen_case(rng, profile=None):
             "names2": [a["name"] for a in ad2],
             "n_ad1": len(ad1) + len(decoys),
             "n_ad2": len(ad2),
+            "big": big,
         },
     }
     case["knobs"] = gen_knobs(rng, case, P)
@@ -657,6 +680,8 @@ def gen_knobs(rng, case, P=None):
         buf = rng.randint(floor, max(floor + 1, total // rng.randint(1, 6) + floor))
     else:
         buf = max(floor, total + rng.randint(1, 100))
+    if case.get("meta", {}).get("big"):
+        buf = max(floor, total // (rng.randint(3, 9) if case["meta"]["big"] == 1 else rng.randint(3, 6)))
     workers = rng.randint(*P["workers"])
     return {
         "workers": workers,
